@@ -3,7 +3,7 @@ import re, runner, parsefam
 
 def main(tier, seed, t0, only=None):
     q = tier == 'quick'
-    J = parsefam.jobs('C03', 4, tier, want=('free', 'ws', 'wide', 'str'), nmax=(4 if q else 7))
+    J = parsefam.jobs('C03', 4, tier, want=('free', 'ws', 'ws2', 'wide', 'str'), nmax=(4 if q else 7))
     J += parsefam.jobs('C03', 4, tier, defines=('ALLOC_SIMPLE',), want=('wide',))
     if only: J = [j for j in J if re.search(only, j.name)]
     res = runner.run_jobs(J)
